@@ -109,7 +109,11 @@ def streams(tier, rng, P, only=None, cases=None):
             p1 = to_prog(blocks); p2 = to_prog([b for b in blocks if b[0] == k])
             s1_, s2_ = mml.pr(p1), mml.pr(p2)
             cs.append(dict(req="run2 %s %s" % (hx(s1_), hx(s2_)), src=s1_, src2=s2_, show=s1_[:300], k=k, ntr=len(set(b[0] for b in blocks)), key="at%d" % i))
-        for j, (a, b, k) in enumerate([("TR=1 l4 c TR=2 l4 d TimeSignature=3,4 e", "TR=2 l4 d TimeSignature=3,4 e", 2), ("TR(1) Tempo(90) c TR(0) d", "TR(1) Tempo(90) c", 1)]):
+        for j, (a, b, k) in enumerate([("TR=1 l4 c TR=2 l4 d TimeSignature=3,4 e", "TR=2 l4 d TimeSignature=3,4 e", 2), ("TR(1) Tempo(90) c TR(0) d", "TR(1) Tempo(90) c", 1),
+                                       # the same song-level command written on two tracks at the same tick is written on both
+                                       ("TR=1 Tempo=100 c TR=2 Tempo=100 e", "TR=2 Tempo=100 e", 2), ("TR=2 Tempo=100 e TR=1 Tempo=100 c", "TR=1 Tempo=100 c", 1),
+                                       ("TR=1 l4 c Tempo=90 d TR=3 l4 r Tempo=90 e", "TR=3 l4 r Tempo=90 e", 3), ("TR=1 TimeSignature=3,4 c TR=2 TimeSignature=3,4 d", "TR=2 TimeSignature=3,4 d", 2),
+                                       ("TR=1 TrackName={\"x\"}; c TR=2 TrackName={\"x\"}; d", "TR=2 TrackName={\"x\"}; d", 2), ("TR=1 y7,100; c TR=2 CH=2 y7,100; d", "TR=2 CH=2 y7,100; d", 2)]):
             cs.append(dict(req="run2 %s %s" % (hx(a), hx(b)), src=a, src2=b, show=a, k=k, ntr=2, key="afixed%d" % j))
         return cs
     def alone_judge(c, impl, m):
